@@ -3423,6 +3423,17 @@ static void mz_zip_time_t_to_dos_time(MZ_TIME_T time, mz_uint16 * pDOS_time, mz_
 		return;
 	}
 
+#elif defined(__unix__) || defined(__APPLE__)
+	/* localtime() returns a pointer to one static object shared by all threads */
+	struct tm tm_struct;
+	struct tm * tm = localtime_r(&time, &tm_struct);
+
+	if (!tm) {
+		*pDOS_date = 0;
+		*pDOS_time = 0;
+		return;
+	}
+
 #else
 	struct tm * tm = localtime(&time);
 #endif /* #ifdef _MSC_VER */
